@@ -1,7 +1,8 @@
 (* C02 — proofs over the finite cell space: completeness of the enumerations (so that a `forallb` decided by
-   vm_compute is a statement about ALL cells), the refutation of lowering_total on the mirrored tables with the
-   exact list of failing cells, the partial theorem for every other cell, and the consistency of the value
-   contexts. *)
+   vm_compute is a statement about ALL cells), lowering_total for every cell, the consistency of the value
+   contexts, and the end-to-end statement.  (On the pinned tree lowering_total was refuted in 37 cells and the
+   list-element context failed for list-typed elements; the tables of that tree are kept in
+   /verif/models/c02_pinned, the repairs are the eight `fixed: property=C02` lines of KNOWN_FINDINGS.jsonl.) *)
 From Coq Require Import List Bool.
 Import ListNotations.
 From DDP Require Import Gen.OperatorEnum Lower.TcTable Lower.LowerTable Lower.Cells.
@@ -90,7 +91,7 @@ Proof.
     rewrite El. apply andb_true_iff. split; [exact Hw | ]. apply irty_eqb_eq. exact He.
 Qed.
 
-(* ---- the failing cells, exactly ------------------------------------------------------------- *)
+(* ---- no failing cell --------------------------------------------------------------------------- *)
 Lemma bad_cells_spec : forall c, In c bad_cells <-> cell_ok c = false.
 Proof.
   intros c. unfold bad_cells. rewrite filter_In. split.
@@ -98,64 +99,22 @@ Proof.
   - intros H. split; [apply all_cells_complete | ]. apply negb_true_iff. exact H.
 Qed.
 
-Definition bad_cells_explicit : list cell :=
-  [ CUn UN_ABS (TB BByte); CUn UN_NEGATE (TB BByte);
-    CBin BIN_PLUS (TB BZahl) (TB BByte); CBin BIN_PLUS (TB BByte) (TB BZahl);
-    CBin BIN_PLUS (TB BByte) TAlias; CBin BIN_PLUS TAlias (TB BByte);
-    CBin BIN_MINUS (TB BZahl) (TB BByte); CBin BIN_MINUS (TB BByte) (TB BZahl);
-    CBin BIN_MINUS (TB BByte) TAlias; CBin BIN_MINUS TAlias (TB BByte);
-    CBin BIN_MULT (TB BZahl) (TB BByte); CBin BIN_MULT (TB BByte) (TB BZahl);
-    CBin BIN_MULT (TB BByte) TAlias; CBin BIN_MULT TAlias (TB BByte);
-    CBin BIN_LOGIC_AND (TB BZahl) (TB BByte); CBin BIN_LOGIC_AND (TB BByte) (TB BZahl);
-    CBin BIN_LOGIC_AND (TB BByte) (TB BByte); CBin BIN_LOGIC_AND (TB BByte) TAlias;
-    CBin BIN_LOGIC_AND TAlias (TB BByte);
-    CBin BIN_LOGIC_OR (TB BZahl) (TB BByte); CBin BIN_LOGIC_OR (TB BByte) (TB BZahl);
-    CBin BIN_LOGIC_OR (TB BByte) (TB BByte); CBin BIN_LOGIC_OR (TB BByte) TAlias;
-    CBin BIN_LOGIC_OR TAlias (TB BByte);
-    CBin BIN_LOGIC_XOR (TB BZahl) (TB BByte); CBin BIN_LOGIC_XOR (TB BByte) (TB BZahl);
-    CBin BIN_LOGIC_XOR (TB BByte) (TB BByte); CBin BIN_LOGIC_XOR (TB BByte) TAlias;
-    CBin BIN_LOGIC_XOR TAlias (TB BByte);
-    CBin BIN_LEFT_SHIFT (TB BZahl) (TB BByte); CBin BIN_LEFT_SHIFT (TB BByte) (TB BZahl);
-    CBin BIN_LEFT_SHIFT (TB BByte) TAlias; CBin BIN_LEFT_SHIFT TAlias (TB BByte);
-    CBin BIN_RIGHT_SHIFT (TB BZahl) (TB BByte); CBin BIN_RIGHT_SHIFT (TB BByte) (TB BZahl);
-    CBin BIN_RIGHT_SHIFT (TB BByte) TAlias; CBin BIN_RIGHT_SHIFT TAlias (TB BByte) ].
-
-Lemma bad_cells_computed : bad_cells = bad_cells_explicit.
+Lemma bad_cells_computed : bad_cells = [].
 Proof. vm_compute. reflexivity. Qed.
 
-Lemma lowering_total_fails_exactly :
-  forall c, ~ lowering_total_at c <-> In c bad_cells_explicit.
+Lemma all_cells_ok : forall c, cell_ok c = true.
 Proof.
-  intros c. rewrite <- bad_cells_computed, bad_cells_spec. split.
-  - intros H. destruct (cell_ok c) eqn:E; [ | reflexivity]. exfalso. apply H. apply cell_ok_spec. exact E.
-  - intros H Hl. apply cell_ok_spec in Hl. rewrite Hl in H. discriminate H.
+  intros c. destruct (cell_ok c) eqn:E; [reflexivity | ]. exfalso.
+  pose proof (proj2 (bad_cells_spec c) E) as H. rewrite bad_cells_computed in H. exact H.
 Qed.
 
-Lemma lowering_total_refuted :
-  exists c t, tc c = Some t /\
-    ~ exists d v code, lower c = Ok d v code /\ ir_well_typed (Ok d v code) = true /\ d = ir t.
-Proof.
-  exists (CUn UN_NEGATE (TB BByte)), (TB BZahl). split; [reflexivity | ].
-  intros (d & v & code & El & _). vm_compute in El. discriminate El.
-Qed.
-
-Lemma lowering_total_partial :
-  forall c t, ~ In c bad_cells_explicit -> tc c = Some t ->
+Lemma lowering_total :
+  forall c t, tc c = Some t ->
     exists d v code, lower c = Ok d v code /\ ir_well_typed (Ok d v code) = true /\ d = ir t.
-Proof.
-  intros c t Hn Ht.
-  assert (Hok : cell_ok c = true).
-  { destruct (cell_ok c) eqn:E; [reflexivity | ]. exfalso. apply Hn.
-    rewrite <- bad_cells_computed. apply bad_cells_spec. exact E. }
-  exact (proj1 (cell_ok_spec c) Hok t Ht).
-Qed.
+Proof. intros c t Ht. exact (proj1 (cell_ok_spec c) (all_cells_ok c) t Ht). Qed.
 
 (* ---- value contexts --------------------------------------------------------------------------- *)
-Definition bad_ctxs_explicit : list (ctx * ty) :=
-  [ (CElem, TL BZahl); (CElem, TL BKomma); (CElem, TL BByte); (CElem, TL BBool); (CElem, TL BChar);
-    (CElem, TL BText); (CElem, TL BStruct); (CElem, TL BAny); (CElem, TL BDef) ].
-
-Lemma bad_ctxs_computed : bad_ctxs = bad_ctxs_explicit.
+Lemma bad_ctxs_computed : bad_ctxs = [].
 Proof. vm_compute. reflexivity. Qed.
 
 Lemma all_ctx_pairs_complete :
@@ -165,54 +124,49 @@ Proof.
 Qed.
 
 (* every context the checker admits for a type is served by the code generator when the operand was lowered
-   consistently — except a list literal whose element is itself a list *)
+   consistently *)
 Lemma context_consistent :
-  forall x t, ctx_admits x t = true -> ~ In (x, t) bad_ctxs_explicit -> ctx_ok x t = true.
+  forall x t, ctx_admits x t = true -> ctx_ok x t = true.
 Proof.
-  intros x t Ha Hn. destruct (ctx_ok x t) eqn:E; [reflexivity | ]. exfalso. apply Hn.
-  rewrite <- bad_ctxs_computed. unfold bad_ctxs. apply filter_In. split; [apply all_ctx_pairs_complete | ].
-  cbn [fst snd]. rewrite Ha, E. reflexivity.
+  intros x t Ha. destruct (ctx_ok x t) eqn:E; [reflexivity | ]. exfalso.
+  assert (H : In (x, t) bad_ctxs).
+  { unfold bad_ctxs. apply filter_In. split; [apply all_ctx_pairs_complete | ].
+    cbn [fst snd]. rewrite Ha, E. reflexivity. }
+  rewrite bad_ctxs_computed in H. exact H.
 Qed.
 
 Lemma context_consistent_code :
-  forall x t, ctx_admits x t = true -> ~ In (x, t) bad_ctxs_explicit ->
+  forall x t, ctx_admits x t = true ->
     exists d v code, lower_ctx x t (ir t) (ir t) = Ok d v code /\ code_verdict code = VOk.
 Proof.
-  intros x t Ha Hn. pose proof (context_consistent x t Ha Hn) as H. unfold ctx_ok in H.
+  intros x t Ha. pose proof (context_consistent x t Ha) as H. unfold ctx_ok in H.
   destruct (lower_ctx x t (ir t) (ir t)) as [ | d v code]; [discriminate H | ].
   exists d, v, code. split; [reflexivity | ]. destruct (code_verdict code); try discriminate H. reflexivity.
 Qed.
 
-Lemma context_elem_refuted :
-  exists t, ctx_admits CElem t = true /\ lower_ctx CElem t (ir t) (ir t) = Err.
-Proof. exists (TL BZahl). split; reflexivity. Qed.
-
-(* ---- end to end: good cell + good context = kddp succeeds ------------------------------------ *)
+(* ---- end to end: whatever the frontend admits, kddp compiles ------------------------------------ *)
 Definition e2e_ok (c : cell) : bool :=
   match tc c with
   | None => true
   | Some t =>
-      negb (cell_ok c) ||
-      forallb (fun x => negb (ctx_admits x t) || negb (ctx_ok x t) ||
+      forallb (fun x => negb (ctx_admits x t) ||
                         match verdict_of c x with VOk => true | _ => false end) all_ctxs
   end.
 
 Lemma e2e_all : forallb e2e_ok all_cells = true.
 Proof. vm_compute. reflexivity. Qed.
 
-Lemma good_cells_compile :
-  forall c x t, tc c = Some t -> cell_ok c = true -> ctx_admits x t = true -> ctx_ok x t = true ->
-    verdict_of c x = VOk.
+Lemma admitted_cells_compile :
+  forall c x t, tc c = Some t -> ctx_admits x t = true -> verdict_of c x = VOk.
 Proof.
-  intros c x t Ht Hc Ha Hx.
-  pose proof (forall_cells e2e_ok e2e_all c) as H. unfold e2e_ok in H. rewrite Ht, Hc in H. cbn [negb orb] in H.
-  pose proof (proj1 (forallb_forall _ _) H x (all_ctxs_complete x)) as Hx'. cbn beta in Hx'.
-  rewrite Ha, Hx in Hx'. cbn [negb orb] in Hx'.
-  destruct (verdict_of c x); try discriminate Hx'. reflexivity.
+  intros c x t Ht Ha.
+  pose proof (forall_cells e2e_ok e2e_all c) as H. unfold e2e_ok in H. rewrite Ht in H.
+  pose proof (proj1 (forallb_forall _ _) H x (all_ctxs_complete x)) as Hx. cbn beta in Hx.
+  rewrite Ha in Hx. cbn [negb orb] in Hx.
+  destruct (verdict_of c x); try discriminate Hx. reflexivity.
 Qed.
 
-(* a cell the frontend admits never yields a frontend rejection in an admitted context, and a rejected cell is
-   never compiled: the verdict function is faithful to the checker table *)
+(* the verdict is a frontend rejection exactly when the checker table (or the context rule) rejects *)
 Lemma verdict_reject_iff :
   forall c x, verdict_of c x = VReject <-> (tc c = None \/ exists t, tc c = Some t /\ ctx_admits x t = false).
 Proof.
